@@ -53,7 +53,7 @@ def run_dropout(p, hist):
                 m = int(e[1:]); bits = [(m >> j) & 1 for j in range(3)]
                 a, c = min(p, 1 - p) / 2, (max(p, 1 - p) + 1) / 2
                 u = [(c if k else a) if 0 < p < 1 else (0.25 + 0.5 * k) for k in bits]
-            x = sg.Tensor(X3.copy(), requires_grad=True)
+            x = sg.Tensor(X3.copy(), requires_grad=(i % 2 == 0))     # every other forward gets plain data: the mask applies all the same
             with randsrc.controlled(u=u) as src:
                 try:
                     y = L(x)
@@ -86,11 +86,14 @@ def run_dropout(p, hist):
                             y2 = L(x2)
                         pending.append((x2, y2, keep, p, prefix))
                         try:
+                            if not x.requires_grad: raise StopIteration
                             y.backward(sg.Tensor(G3.copy()))
                             gexp = G3 * np.array(keep) / (1 - p) if p < 1 else np.zeros(3)
                             gd = np.asarray(x.grad.data, dtype=np.float64)
                             if not np.allclose(gd, gexp, rtol=1e-14, atol=0):
                                 v("dropout:backward-mask", f"p={p} answers u={u}: gradient {gd}, expected g*mask/(1-p) = {gexp}")
+                        except StopIteration:
+                            pass
                         except Exception as ex:
                             v("dropout:backward-raised", f"{type(ex).__name__}: {ex}")
                 else:
